@@ -105,7 +105,11 @@ static vj::Value run_layout(const vj::Value& c)
       for(auto& g : got) gs += "(" + ishow(g.first) + "|" + ishow(g.second) + ")";
       if(!same) return fail(s, op, "block_structure", "blocks (velocity nodes|pressure dofs) " + gs + ", specified " + es);
     }
-    else if(op == "IN") vanka.init_numeric();
+    else if(op == "IN")
+    {
+      try { vanka.init_numeric(); }
+      catch(const Solver::VankaFactorError&) { return fail(s, op, "unexpected_factor_error", "init_numeric threw VankaFactorError although every local system is regular"); }
+    }
     else if(op == "INTHROW")
     {
       bool thrown = false;
